@@ -127,6 +127,9 @@ func evalC02(c *core.Ctx, e *eco.Eco, op string, args []string) []core.Violation
 		if pn != nil || err != nil || rg == nil || x == nil || y == nil || bv == nil {
 			return nil
 		}
+		if x = x.OwnCopy(); x == nil {
+			return nil
+		}
 		eco.SafeContains(rg, x)
 		if !eco.OverwriteInPlace(x, y) {
 			return nil
@@ -467,6 +470,10 @@ func runC02(c *core.Ctx, ck *Check) {
 			x, _, _ := e.SafeNewVersion(as)
 			y, _, _ := e.SafeNewVersion(bs)
 			if x == nil || y == nil {
+				continue
+			}
+			// x is a struct copy that the workload owns: overwriting it cannot touch an object the library may share
+			if x = x.OwnCopy(); x == nil {
 				continue
 			}
 			eco.SafeContains(rg, x)
